@@ -241,6 +241,21 @@ def handle (line : String) : String :=
     | some ((.ok _, .ok _), _) => "err NotImplementedError"
     | some _ => "ctor-error"
     | none => "bad-op"
+  | "interhyp" :: rest =>      -- hypotheses of the operands (ExactHyp / Valid) and admissibility of a polyhedron result
+    match two.run rest with
+    | some ((.ok (.obj a), .ok (.obj b)), _) =>
+      let h (o : Obj) : Bool := match o with
+        | .polyhedron B => B.exactHypB && B.validB
+        | .polygon P => P.validB
+        | .flat _ => true
+      let r := match inter a b with
+        | .ok (some (.polyhedron R)) => "result " ++ showBool (R.exactHypB && R.validB)
+        | .ok (some (.polygon Q)) => "result " ++ showBool Q.validB
+        | .ok _ => "result na"
+        | .error _ => "result err"
+      s!"operands {showBool (h a)} {showBool (h b)} {r}"
+    | some _ => "ctor-error"
+    | none => "bad-op"
   | "inter3" :: rest =>
     match (do let a ← objP; let b ← objP; let c ← objP; pure (a, b, c) : P _).run rest with
     | some ((.ok (.obj a), .ok (.obj b), .ok (.obj c)), _) =>
